@@ -133,6 +133,17 @@ impl Registry {
                     write!(output, "{}", value)?;
                 }
             }
+            ConstValue::List(items) => {
+                // the elements have the same (list-unwrapped) declared type: keep masking inside
+                output.push('[');
+                for (idx, item) in items.iter().enumerate() {
+                    if idx > 0 {
+                        output.push_str(", ");
+                    }
+                    self.stringify_input_value(output, meta_input_value, item)?;
+                }
+                output.push(']');
+            }
             _ => write!(output, "{}", value)?,
         }
 
